@@ -106,7 +106,7 @@ def run(c) -> CaseResult:
         src = m._verif_source
 
         def reference(P, inp, mode):
-            return dsl.evaluate(prog, P, inp, mode)
+            return dsl.evaluate(prog, dsl.named_tensors(qm), inp, mode)
         n_q = sum(s["op"] in ("linear", "ulinear", "sdpa") for s in prog["stmts"])
     else:
         h = c["h"]
